@@ -36,7 +36,7 @@ theorem fMeasure_symm (p r : Rat) : fMeasure p r 1 = fMeasure r p 1 := by
   unfold fMeasure
   by_cases h : p = 0 ∧ r = 0
   · have h' : r = 0 ∧ p = 0 := ⟨h.2, h.1⟩
-    simp [h, h']
+    simp [h]
   · have h' : ¬ (r = 0 ∧ p = 0) := fun hh => h ⟨hh.2, hh.1⟩
     simp only [h, h', if_false]
     ring_nf
